@@ -163,12 +163,14 @@ def connected_graph(rnd, directed, tries=40, **kw):
 def signed_graph(rnd, directed, nmax=10):
     n = rnd.randint(4, nmax)
     dens = rnd.choice((0.4, 0.6, 0.8, 1.0))
-    wkind = rnd.choice(('int', 'int', 'float', 'unit', 'bigint'))
+    wkind = rnd.choice(('int', 'int', 'float', 'float', 'unit', 'bigint', 'unitc'))
+    cmag = rnd.choice((0.5, 2.0, 3.0))  # 'unitc': every connection has the same magnitude c != 1
+    scale = rnd.choice((1e-9, 1e-6, 1e6)) if (wkind == 'float' and rnd.random() < 0.3) else 1.0
     W = np.zeros((n, n))
     pairs = [(a, b) for a in range(n) for b in range(n) if (a != b if directed else a < b)]
     for a, b in pairs:
         if rnd.random() < dens:
-            mag = {'int': float(rnd.randint(1, 9)), 'float': round(rnd.uniform(0.05, 1.0), 6), 'unit': 1.0,
+            mag = {'int': float(rnd.randint(1, 9)), 'float': round(rnd.uniform(0.05, 1.0), 6) * scale, 'unit': 1.0, 'unitc': cmag,
                    'bigint': float(rnd.randint(200, 30000))}[wkind]  # counts whose products overflow a narrow integer type
             w = mag if rnd.random() < 0.6 else -mag
             W[a, b] = w
